@@ -266,7 +266,8 @@ theorem advance_first (cfg : Config) (hirr : cfg.matches .irreversible = true) (
   generalize hdb' : (a.st.db.moveLIB a.st.db.libRef).purgeBeforeLIB cfg.kept = db'
   have hn1 := processIrr_nofail cfg { a with st := withDb db' a.st } [fi] b.ref (fun i => (a.st.db.find i).map (·.blk)) ⟨hf, hn⟩
   have hn2 := processStalled_nofail cfg _ ([] : List Entry) b.ref ⟨hn1.1, hn1.2.1⟩
-  obtain ⟨seen, hseen⟩ := processIrr_st cfg { a with st := withDb db' a.st } [fi] b.ref (fun i => (a.st.db.find i).map (·.blk))
+  have hseen := processIrr_st_nofail cfg { a with st := withDb db' a.st } [fi] b.ref (fun i => (a.st.db.find i).map (·.blk)) hf hn fi (by simp)
+  generalize hsn' : fi.blk.ref = seen at hseen
   have hstfin : (processStalled cfg (processIrr cfg { a with st := withDb db' a.st } [fi] b.ref
       (fun i => (a.st.db.find i).map (·.blk))) [] b.ref).st = { withDb db' a.st with lastLIBSeen := seen } := by
     rw [processStalled_st, hseen]
@@ -281,7 +282,12 @@ theorem advance_first (cfg : Config) (hirr : cfg.matches .irreversible = true) (
   · rw [hstevs, List.map_append, irrEvents_sb cfg hirr]
     simp only [List.map_cons, List.map_nil, hfi, hLid, hLf, Option.map_some, Option.getD_some]
   · rw [hstfin]
-    apply inv_seen
+    have hseenlib : seen = a.st.db.libRef := by
+      rw [← hsn']
+      have h1 : fi.blk.id = a.st.db.libRef.id := by rw [hfi]; exact hLid
+      have h2 : fi.blk.num = a.st.db.libRef.num := by rw [hfi]; exact hnumL
+      cases hr : a.st.db.libRef with
+      | mk i n => rw [hr] at h1 h2; simp only [Blk.ref] at h1 h2 ⊢; rw [h1, h2]
     have hhigh : ∀ x ∈ Q, ∀ e, a.st.db.find x = some e → a.st.db.libRef.num - cfg.kept ≤ e.blk.num := by
       intro x hx e he
       have := heights_path _ hI.heights _ a.st.db.libRef.num Q hI.path hI.heights.2.1 x hx e he
@@ -293,7 +299,8 @@ theorem advance_first (cfg : Config) (hirr : cfg.matches .irreversible = true) (
       | none => rw [hfx] at this; cases this
       | some e => exact ⟨e, rfl⟩
     have hlibfin : db'.libRef = a.st.db.libRef := by rw [← hdb']; rfl
-    refine ⟨by simp only [withDb, hlibfin]; exact hI.libNe, ?_, ?_, ?_, ?_, ?_, ?_, ?_, ?_, ?_⟩
+    refine ⟨by simp only [withDb, hlibfin]; exact hI.libNe, ?_, ?_, ?_, ?_, ?_, ?_, ?_, ?_, ?_,
+      Or.inr (by simp only [withDb, hlibfin]; exact hseenlib)⟩
     · simp only [withDb]; rw [← hdb']; exact wf_purge _ _ _ hI.wf
     · simp only [withDb]; rw [← hdb']; exact heights_movePurge _ hI.wf hI.heights _ cfg.kept L hLf hnumL
     · simp only [withDb, hlibfin]; rw [← hdb']; exact isPath_movePurge _ _ _ _ _ hI.path hhigh
@@ -442,7 +449,7 @@ theorem discovery_switch (cfg : Config) (hnew : cfg.matches .new = true) (hundo 
     have hI2 : Inv a.st ((c0 :: cs0).map (·.blk.id)) := by
       refine ⟨by rw [hsame.1, hs3lib]; exact hRne,
         Forkable.SameBlks.wf hsame (by rw [hs3db]; exact hw2), Forkable.SameBlks.heights hsame (by rw [hs3db]; exact hh2),
-        ?_, ?_, ?_, ?_, ?_, ?_, ?_⟩
+        ?_, ?_, ?_, ?_, ?_, ?_, ?_, Or.inl (by rw [hout.seen, ← hs3]; exact hP.seenEmpty)⟩
       · rw [hsame.1, hsame.isPath, hs3lib, hs3db]; exact hp
       · rw [hsame.1, hs3lib]; exact hn
       · intro x hx
@@ -570,7 +577,7 @@ theorem discovery_nochain (U : Id → Option Blk) (hU : UOK U) (s : FState) (b :
   have herid : er.blk.id = R.id := find_id _ _ er hfer
   right; right
   refine ⟨er.blk, [], by simp only; rw [hlib2, herid], by simp, trivial, ?_, by rw [herid]; exact hJ2⟩
-  refine ⟨by simp only; rw [hlib2]; exact hRne, hw2, hh2, trivial, by simp, by simp, ?_, ?_, ?_, ?_⟩
+  refine ⟨by simp only; rw [hlib2]; exact hRne, hw2, hh2, trivial, by simp, by simp, ?_, ?_, ?_, ?_, Or.inl hP.seenEmpty⟩
   · intro l hl; simp only at hl; rw [hP.noLast] at hl; cases hl
   · intro _; exact ⟨rfl, hns2⟩
   · intro c' cs' hcc _
@@ -646,9 +653,9 @@ theorem discovery_initial (cfg : Config) (hnew : cfg.matches .new = true) (hirr 
   generalize hx : phase ⟨s', [], none, false⟩ [⟨.new, b, b.ref, cursorLIB s', none, 0, 0⟩] = x at hp
   rw [if_neg (by rw [hp.1]; simp)]
   have hn1 := processIrr_nofail cfg { x with st := initSt false b x.st } [⟨b, true⟩] b.ref (fun _ => none) ⟨hp.1, hp.2.1⟩
-  obtain ⟨seen, hseen⟩ := processIrr_st cfg { x with st := initSt false b x.st } [⟨b, true⟩] b.ref (fun _ => none)
+  have hseen := processIrr_st_nofail cfg { x with st := initSt false b x.st } [⟨b, true⟩] b.ref (fun _ => none) hp.1 hp.2.1 ⟨b, true⟩ (by simp)
   have hfinst : (finish (processIrr cfg { x with st := initSt false b x.st } [⟨b, true⟩] b.ref)).1 =
-      { initSt false b s' with lastLIBSeen := seen } := by
+      { initSt false b s' with lastLIBSeen := b.ref } := by
     unfold finish; simp only; rw [hseen]; simp only [hp.2.2.2]
   have hfinevs : (finish (processIrr cfg { x with st := initSt false b x.st } [⟨b, true⟩] b.ref)).2.1 =
       [⟨.new, b, b.ref, cursorLIB s', none, 0, 0⟩] ++ irrEvents cfg [⟨b, true⟩] b.ref (fun _ => none) := by
@@ -658,10 +665,10 @@ theorem discovery_initial (cfg : Config) (hnew : cfg.matches .new = true) (hirr 
   refine ⟨by simp only [initSt, Bool.false_eq_true, if_false]; rw [hs'db, hlib2], ?_, ?_, ?_⟩
   · rw [List.map_append, irrEvents_sb cfg hirr]
     simp [sbOf]
-  · apply inv_seen
+  · apply inv_seen _ _ _ _ (by simp only [initSt, Bool.false_eq_true, if_false]; rw [hs'db, hlib2])
     simp only [initSt, Bool.false_eq_true, if_false]
     refine ⟨by rw [hs'db, hlib2]; exact hb.1, by rw [hs'db]; exact hw2, by rw [hs'db]; exact hh2,
-      trivial, by simp, by simp, ?_, ?_, ?_, ?_⟩
+      trivial, by simp, by simp, ?_, ?_, ?_, ?_, ?_⟩
     · intro l hl'
       simp only [Option.some.injEq] at hl'
       rw [hs'db, hlib2, ← hl']; rfl
@@ -676,6 +683,7 @@ theorem discovery_initial (cfg : Config) (hnew : cfg.matches .new = true) (hirr 
       rw [hs'db, ← hd] at hin
       simp only [appendBlk] at hin
       rw [hP.noInitNum] at hin; cases hin
+    · exact Or.inl (by rw [← hs']; exact hP.seenEmpty)
   · simp only [initSt, Bool.false_eq_true, if_false]
     rw [hs'db]; exact hJ2
 
